@@ -36,7 +36,7 @@ package fs
 //@ iface FileReader.Start
 //@   requires [regex-usable] len(arg4.flags) >= 1 && implies(arg4.flags[0] == regex.Default || arg4.flags[0] == regex.Invert, arg4.re != nil)
 //@   chaninv arg3 [line-wellformed] elem != nil && elem.Content != nil
-//@   assigns *arg3
+//@   assigns *arg3, fs
 //@ iface FileReader.Retry
 //@   assigns nothing
 
